@@ -136,6 +136,7 @@ def run(ck):
         temps = list(LADDER) + [rng.choice([3.3, 17.0, 150.0])] + [None]
         if ck.quick:
             temps = [0.0, 1e-3, 1.0, 1.4, 5.0, 77.0, 300.0, None] if s % 2 == 0 else [0.0, 0.01, 0.1, 2.0, 10.0, 1000.0, rng.choice([3.3, 150.0])]
+        outside_state = {}
         for T in temps:
             Teff = T if T is not None else (bathT if bathT is not None else 0.0)
             for cond, limit in (("thermal", "weak_coupling"), ("thermal_excited_state", "weak_coupling"),
@@ -165,6 +166,17 @@ def run(ck):
                     except Exception as e:
                         ck.fail("raises:%s:%s" % (cond, limit), "get_DensityMatrix raised %r" % (e,), inp)
                         continue
+                    # a state whose defining basis is fixed by the request is the same physical state whether it is requested inside or
+                    # outside a basis context (read here after the context was left, i.e. in the site representation in both cases)
+                    if cond == "thermal_excited_state":
+                        if not inside:
+                            outside_state[(cond, limit, T)] = d_site.copy()
+                        elif (cond, limit, T) in outside_state:
+                            dio = float(numpy.abs(d_site - outside_state[(cond, limit, T)]).max())
+                            ck.resid("thermal excited state requested inside vs outside a basis context", dio)
+                            if dio > 1e-9:
+                                ck.fail("basis:%s:%s:inside-vs-outside" % (cond, limit), "the state requested inside eigenbasis_of(H) is not the same physical state as "
+                                        "the one requested outside any context", inp, dio)
                     # a Hamiltonian handed in explicitly and equal to the aggregate's own gives the same state
                     if not inside and cond in ("thermal", "thermal_excited_state") and not (limit == "strong_coupling" and cond == "thermal_excited_state"):
                         try:
